@@ -44,14 +44,17 @@ def PrvFile.run (p : PrvFile) (file : Nat) : List (Int × List PrvRec) → Excep
     thread / CPU by gindex). -/
 def rowFile (labels : List String) : Nat × List String := (labels.length, labels)
 
-/-- Types declared in thread.pcf: the three thread types plus every channel
-    type of every enabled model (`thread_create_pcf_types`, `init_pcf`). -/
-def threadTypes (enabled : List Nat) : List Nat :=
-  [Generated.prvThreadCpu, Generated.prvThreadTid, Generated.prvThreadState] ++
-    ((allSpecs.filter (fun s => enabled.contains s.char)).flatMap (·.pvtType))
+/-- The channel groups of an emulator: enabled models plus the run-time groups. -/
+def Emu.specs (e : Emu) : List ModelSpec :=
+  allSpecs.filter (fun s => e.enabled.contains s.char) ++ e.extra
 
-def cpuTypes (enabled : List Nat) : List Nat :=
-  [Generated.prvCpuPid, Generated.prvCpuTid, Generated.prvCpuNrun] ++
-    ((allSpecs.filter (fun s => enabled.contains s.char)).flatMap (·.pvtType))
+/-- Types declared in thread.pcf: the three thread types plus every channel
+    type of every enabled model (`thread_create_pcf_types`, `init_pcf`) and of
+    the mark types (`mark.c: init_pcf`). -/
+def threadTypes (e : Emu) : List Nat :=
+  [Generated.prvThreadCpu, Generated.prvThreadTid, Generated.prvThreadState] ++ e.specs.flatMap (·.pvtType)
+
+def cpuTypes (e : Emu) : List Nat :=
+  [Generated.prvCpuPid, Generated.prvCpuTid, Generated.prvCpuNrun] ++ e.specs.flatMap (·.pvtType)
 
 end Ovni.Emu
